@@ -262,13 +262,51 @@ QAns(s, d, g) ==
     [] g.kind = "qpagelinks" -> { <<e[1], e[2]>> : e \in WeLinksBlocks(s.trie, s.ls, g.weid, g.ps, TRUE, TRUE, TRUE) }
     [] g.kind = "qlinks" -> DrainQ(s, d, NewLinksQuery(g.ps, g.out)).acc
     [] OTHER -> {}
+(* Witnesses.  The answers of the aggregating queries (cited / citing webentities, network, child    *)
+(* webentities) are sets of items each of which may be witnessed by several (page, link) pairs or     *)
+(* prefix nodes.  Blocks never move, so a witness is identified by its block numbers; a STABLE witness  *)
+(* is one that holds at every moment of the query's execution.  An item with a stable witness is       *)
+(* always reported; an item that qualifies throughout only through witnesses that replace one another  *)
+(* (possible only while pages are being re-attributed) may be missed: known finding F12.               *)
+Aggregating(g) == g.kind \in {"qlinks", "qnet", "qnetslow", "qchildren"}
+RealmPages(tr, ps) ==
+  UNION { LET n == LruNode(tr, ps[i]) IN
+          IF n = 0 THEN {} ELSE
+          LET dd == WeDfsFrom(tr, n, ps[i], Unlimited) IN { dd[j][1] : j \in { x \in 1..Len(dd) : tr[dd[x][1]].pg } }
+          : i \in 1..Len(ps) }
+QWit(s, g) ==
+  LET tr == s.trie  ls == s.ls IN
+  CASE g.kind = "qlinks" ->
+         UNION { { <<b, t, WindupWe(tr, t)>> : t \in SeqToSet(Deduped(ls, IF g.out THEN tr[b].o ELSE tr[b].i)) }
+                 : b \in { x \in RealmPages(tr, g.ps) : (IF g.out THEN tr[x].o ELSE tr[x].i) # 0 } }
+    [] g.kind \in {"qnet", "qnetslow"} ->
+         LET dw == DfsWeRoot(tr)
+             pageWe == { <<dw[j][1], dw[j][2]>> : j \in { x \in 1..Len(dw) : tr[dw[x][1]].pg /\ dw[x][2] # 0 } }
+             W(b) == IF \E e \in pageWe : e[1] = b THEN (CHOOSE e \in pageWe : e[1] = b)[2] ELSE 0
+             all == UNION { { <<e[1], t, e[2], W(t)>> : t \in SeqToSet(Deduped(ls, IF g.out THEN tr[e[1]].o ELSE tr[e[1]].i)) }
+                            : e \in { x \in pageWe : (IF g.out THEN tr[x[1]].o ELSE tr[x[1]].i) # 0 } }
+         IN { w \in all : w[4] # 0 /\ (g.auto \/ w[3] # w[4]) }
+    [] g.kind = "qchildren" ->
+         UNION { LET n == LruNode(tr, g.ps[i]) IN
+                 IF n = 0 THEN {} ELSE
+                 LET dd == DfsFrom(tr, n, g.ps[i], TRUE) IN
+                 { <<dd[j][1], tr[dd[j][1]].we>> : j \in { x \in 1..Len(dd) : tr[dd[x][1]].we # 0 /\ tr[dd[x][1]].we # g.weid } }
+                 : i \in 1..Len(g.ps) }
+    [] OTHER -> {}
+WitItem(g, w) == CASE g.kind = "qlinks" -> w[3]
+                   [] g.kind \in {"qnet", "qnetslow"} -> <<w[3], w[4]>>
+                   [] OTHER -> w[2]
 NewQb(post, d, gs, gs2, S) ==
-  CASE S.op = "CoopBegin" -> [j \in 1..Len(gs2) |-> LET a == QAns(post, d, gs2[j]) IN [lo |-> a, hi |-> a]]
+  CASE S.op = "CoopBegin" -> [j \in 1..Len(gs2) |-> LET a == QAns(post, d, gs2[j]) IN
+                                                     [lo |-> a, hi |-> a, wit |-> QWit(post, gs2[j])]]
     [] S.op = "CoopNext"  -> [j \in 1..Len(gs) |->
                                IF IsQ(gs[j]) /\ ~gs[j].done
-                               THEN LET a == QAns(post, d, gs[j]) IN [lo |-> qb[j].lo \cap a, hi |-> qb[j].hi \cup a]
+                               THEN LET a == QAns(post, d, gs[j]) IN
+                                    [lo |-> qb[j].lo \cap a, hi |-> qb[j].hi \cup a, wit |-> qb[j].wit \cap QWit(post, gs[j])]
                                ELSE qb[j]]
     [] OTHER -> qb
+(* what must be in the answer whatever else happens meanwhile *)
+Stable(gs, q, j) == IF Aggregating(gs[j]) THEN { WitItem(gs[j], w) : w \in q[j].wit } ELSE q[j].lo
 
 RECURSIVE InterAll(_, _)
 InterAll(m, i) == IF i > Len(m) THEN {} ELSE IF i = Len(m) THEN SeqSet(m[i]) ELSE SeqSet(m[i]) \cap InterAll(m, i + 1)
@@ -316,12 +354,15 @@ CoopClauses(st, rm, d, gs, S, post, o0, o1, qb2) ==
       <<"C16.bounds",  fin.last => \A j \in 1..Len(fin.bounds) :
                          LET b == fin.bounds[j] IN
                          /\ b.exc = ""
-                         /\ qb2[b.g].lo \subseteq SeqSet(b.result)
+                         /\ (qb2[b.g].lo \subseteq SeqSet(b.result) \/ Reattributed(b, fin, o1))
                          /\ (SeqSet(b.result) \subseteq qb2[b.g].hi \/ Reattributed(b, fin, o1))>>,
+      \* whatever else happens meanwhile: every item with a witness that held at every moment is reported
+      <<"C16.bounds.stable", fin.last => \A j \in 1..Len(fin.bounds) :
+                         LET b == fin.bounds[j] IN b.exc = "" => Stable(gs, qb2, b.g) \subseteq SeqSet(b.result)>>,
       \* ... and of what the plain requests of the code itself answered at those moments
       <<"C16.bounds.self",  fin.last => \A j \in 1..Len(fin.bounds) :
                          LET b == fin.bounds[j] IN
-                         /\ InterAll(b.moments, 1) \subseteq SeqSet(b.result)
+                         /\ (InterAll(b.moments, 1) \subseteq SeqSet(b.result) \/ Reattributed(b, fin, o1))
                          /\ (SeqSet(b.result) \subseteq UnionAll(b.moments) \/ Reattributed(b, fin, o1))>>,
       <<"bind.moments", fin.last => \A j \in 1..Len(fin.bounds) :
                          LET b == fin.bounds[j] IN
@@ -333,6 +374,12 @@ CoopClauses(st, rm, d, gs, S, post, o0, o1, qb2) ==
                          LET b == fin.bounds[j] IN
                          ~(Reattributed(b, fin, o1) /\ ~(SeqSet(b.result) \subseteq qb2[b.g].hi
                                                         /\ SeqSet(b.result) \subseteq UnionAll(b.moments)))>>
+      ,
+      \* known finding F12: while pages are being re-attributed, an item that qualified at every moment
+      \* only through witnesses replacing one another can be missed
+      <<"C16.bounds.witness_moved", fin.last => \A j \in 1..Len(fin.bounds) :
+                         LET b == fin.bounds[j] IN
+                         ~(Reattributed(b, fin, o1) /\ b.exc = "" /\ ~(qb2[b.g].lo \subseteq SeqSet(b.result)))>>
     >>)
 
 StepClauses(st, rm, d, gs, S, post, o0, iss, qb2) ==
